@@ -411,6 +411,22 @@ for _p, (_t, _q) in ADDENDA.items():
     CHECKS[_p]["technique"] = CHECKS[_p]["technique"] + _q
 
 
+# Round-8 layers (DESIGN.md 0b "Hidden parameters found by round 8").
+ADDENDA2 = {
+ "C01": " Extreme circuits and a fourth size dimension (input width) with boundary discovery from the integer constants of the garbling code path; C01_every_input_wire_assigned, C01_batch_size_irrelevant, C01_slab_exact, C01_tweak_counter_u32.",
+ "C04": " Streaming is judged gate by gate: the opcode catalogue is derived from Program.Stream's switch, native() programs, every gate input must be a defined wire whose labels differ by R (C04_stream_defined_sessions_secret, C04_stream_undefined_input_leaks), per-kind tweak accounting (C04_stream_safe_accounting).",
+ "C06": " The RSA path is tied byte for byte with steered randomness at every boundary of the model's integer expressions (C06_rsa_received_integer, C06_rsa_delivers_bytes).",
+ "C09": " Programs that divide: C09_program_target_equiv_div (Yao and GMW agree if the Goldschmidt estimate is within one on the run's divider instances), evaluated by a division sweep with structured operands; extreme-shape programs crossing 2^16 levels (C09_levels_bounded).",
+ "C11": " Both halves at once: Model/ConnDuplex.lean (C11_conn_directions_independent, C11_conn_duplex_faults) with full-duplex fault sessions over a buffering socket pair.",
+ "C12": " Operand purity: every operand object is observed after every mpa call over all aliasing patterns (C12_mpa_call_writes_receiver_only); constants read by several folds (C12_constant_value_independent_of_uses).",
+ "C15": " Histories mixing malicious, semi-honest and packed-bit calls on one pair (C15_kos_mixed_history_never_aborts).",
+ "C18": " Environment: Model/Sha2pcEnv.lean (the model has no environment parameter: C18_env_model_has_no_parameter, C18_env_hist_eq); sessions under GOMAXPROCS 1..61, GOGC settings and CPU-confined child processes are the tie.",
+ "C19": " Data phase overlapping the setup phase: Model/MeshData.lean (C19_early_data_conserved, C19_early_data_delivered).",
+}
+for _p, _t in ADDENDA2.items():
+    CHECKS[_p]["text"] = CHECKS[_p]["text"] + _t
+
+
 def main():
     checks = []
     for pid in PROPS:
